@@ -346,6 +346,29 @@ def as_val(v):
     return v
 
 
+class VSpecIte(VAbsIte):
+    """specification-level conditional whose branches have different shapes (a bare value / a tuple / a list): kept symbolic;
+    length, subscripts and equality distribute over the two branches"""
+    label = "spec-ite"
+
+    def _len_of(self, v, st, eng):
+        v = eng.deref(v, st)
+        if isinstance(v, VSeq): return VInt(v.len)
+        if isinstance(v, VTuple): return VInt(len(v.elems))
+        if isinstance(v, VAbs): return v.length(st, eng)
+        raise SpecError(f"len() of {v!r} inside a conditional specification value")
+
+    def length(self, st, eng):
+        return ite(self.c, self._len_of(self.a, st, eng), self._len_of(self.b, st, eng))
+
+    def getitem(self, idx, st, eng):
+        ra, rb = eng.getitem(self.a, idx, st, None)[0][1], eng.getitem(self.b, idx, st, None)[0][1]
+        try:
+            return ite(self.c, ra, rb)
+        except MergeError:
+            return VSpecIte(self.c, ra, rb)
+
+
 def ite(c, a, b):
     """z3-level if-then-else on values of equal shape"""
     if isinstance(a, VVal) and isinstance(b, (VRef, VClass)) or isinstance(b, VVal) and isinstance(a, (VRef, VClass)):
@@ -472,6 +495,12 @@ def veq(a, b):
             return z3.BoolVal(False)
         return z3.And([x == y for x, y in zip(ia, ib)]) if ia else z3.BoolVal(True)
     if type(a) is not type(b):
+        # an opaque value (VVal: something the model knows nothing about, e.g. an element of a havoced list) may well BE the
+        # object on the other side: its equality with an abstract object / reference is unknown, not false
+        opaque = (VVal,)
+        objects = (VAbs, VRef, VVal)
+        if (isinstance(a, opaque) and isinstance(b, objects)) or (isinstance(b, opaque) and isinstance(a, objects)):
+            return z3.Bool(uid("opaque_eq"))
         return z3.BoolVal(False)
     raise MergeError(f"veq: {a!r} == {b!r}")
 
